@@ -48,11 +48,11 @@ impl Parser {
     }
 
     pub fn configuration_declarative_part(&mut self) {
-        // Group declarations are not supported (yet).
-        // They end the declarative part and are reported as a syntax error.
         loop {
             if self.next_is(Keyword(Kw::Use)) && !self.next_nth_is(Keyword(Kw::Vunit), 1) {
                 self.use_clause_declaration();
+            } else if self.next_is(Keyword(Kw::Group)) {
+                self.group_declaration();
             } else if self.next_is(Keyword(Kw::Attribute)) {
                 self.attribute_specification();
             } else {
